@@ -212,6 +212,8 @@ package sql
 //@   loop 1 decreases pmeasure(p)
 //@   ensures[wf; C18] err == nil ==> (result1 ==> len(result0) == 1 && tfWF(result0[0])) && (!result1 ==> len(result0) == 0)
 //@   loop 1 invariant tfWF(tblRef)
+//@   ensures[on.maximal; C06 C10] err == nil && result1 && typeof(result0[0]) == typ(QualifiedJoin) ==> curTokType(p) != OR && curTokType(p) != AND
+//@   loop 1 invariant typeof(tblRef) == typ(QualifiedJoin) ==> curTokType(p) != OR && curTokType(p) != AND
 
 //@ func (p *Parser) WhereClause() (interface{}, error)
 //@   props C09
@@ -220,6 +222,7 @@ package sql
 //@   ensures[tl] PL(p) && p.cur >= old(p.cur)
 //@   decreases pmeasure(p) * 32 + 16
 //@   ensures[wf; C18] result0 == nil || typeof(result0) == typ(WhereClause)
+//@   ensures[where.maximal; C05 C10] err == nil && result0 != nil ==> curTokType(p) != OR && curTokType(p) != AND
 
 //@ func (p *Parser) GroupByClause() ([]ColumnReference, error)
 //@   props C09
@@ -241,6 +244,8 @@ package sql
 //@   loop 1 decreases pmeasure(p)
 //@   ensures[kind; C10 C18] err == nil ==> exprKind(result0)
 //@   loop 1 invariant exprKind(ret)
+//@   ensures[maximal; C10 C05 C06] err == nil ==> curTokType(p) != OR && curTokType(p) != AND
+//@   loop 1 invariant curTokType(p) != AND
 
 //@ func (p *Parser) AndCondition() (interface{}, error)
 //@   props C09
@@ -252,6 +257,9 @@ package sql
 //@   loop 1 decreases pmeasure(p)
 //@   ensures[kind; C10 C18] err == nil ==> exprKind(result0)
 //@   loop 1 invariant exprKind(ret)
+//@   ensures[prec; C10 C05] err == nil ==> andKind(result0)
+//@   ensures[maximal; C10 C05] err == nil ==> curTokType(p) != AND
+//@   loop 1 invariant andKind(ret)
 
 //@ func (p *Parser) Predicate() (interface{}, error)
 //@   props C09
@@ -260,6 +268,7 @@ package sql
 //@   ensures[tl] PL(p) && p.cur >= old(p.cur)
 //@   decreases pmeasure(p) * 32 + 12
 //@   ensures[kind; C10 C18] err == nil ==> exprKind(result0)
+//@   ensures[atom; C10 C05] err == nil ==> atomKind(result0)
 
 //@ func (p *Parser) ComparisonPredicate() (interface{}, error)
 //@   props C09
@@ -268,6 +277,7 @@ package sql
 //@   ensures[tl] PL(p) && p.cur >= old(p.cur)
 //@   decreases pmeasure(p) * 32 + 11
 //@   ensures[kind; C10 C18] err == nil ==> exprKind(result0)
+//@   ensures[atom; C10 C05] err == nil ==> atomKind(result0)
 
 //@ func (p *Parser) ValueExpression() (ValueExpression, error)
 //@   props C09
@@ -276,6 +286,7 @@ package sql
 //@   ensures[tl] PL(p) && p.cur >= old(p.cur)
 //@   decreases pmeasure(p) * 32 + 10
 //@   ensures[kind; C10 C18] err == nil ==> exprKind(result0)
+//@   ensures[atom; C10 C05] err == nil ==> atomKind(result0)
 
 //@ func (p *Parser) ColumnReference() (bool, ColumnReference, error)
 //@   props C09
@@ -449,6 +460,8 @@ package sql
 
 //@ spec pred exprKind(v any) { v == nil || typeof(v) == typ(int64) || typeof(v) == typ(string) || typeof(v) == typ(bool) || typeof(v) == typ(ColumnReference) ||
 //@        typeof(v) == typ(ComparisonPredicate) || typeof(v) == typ(Predicate) || typeof(v) == typ(BooleanTerm) || typeof(v) == typ(SearchCondition) }
+//@ spec pred atomKind(v any) { typeof(v) != typ(BooleanTerm) && typeof(v) != typ(SearchCondition) }
+//@ spec pred andKind(v any) { typeof(v) != typ(SearchCondition) && (typeof(v) == typ(BooleanTerm) ==> typeof(v.(BooleanTerm).RHS) != typ(SearchCondition)) }
 //@ spec abstract tfWF(tf any)
 //@ axiom tfWF.def: forall tf any :: tfWF(tf) <==>
 //@        ((typeof(tf) == typ(TableName) ==> (tf.(TableName).CorrelationName == nil || typeof(tf.(TableName).CorrelationName) == typ(string))) &&
